@@ -787,6 +787,17 @@ func (fc *FC) mergeAt(j *ssa.BasicBlock, valOf func(p *ssa.BasicBlock) *RF) *RF 
 	return r
 }
 
+// structAt: the value of the struct held in local cell al just before `at`.
+func (fc *FC) structAt(al *ssa.Alloc, at ssa.Instruction) *RF {
+	t := al.Type().Underlying().(*types.Pointer).Elem()
+	st := t.Underlying().(*types.Struct)
+	fs := make([]*RF, st.NumFields())
+	for i := range fs {
+		fs[i] = fc.cellValue(cellKey{al, i}, t, at)
+	}
+	return fc.X.mkStruct(t, fs)
+}
+
 func (fc *FC) entryValue(c cellKey, cellType types.Type) *RF {
 	x := fc.X
 	switch b := c.base.(type) {
@@ -797,7 +808,11 @@ func (fc *FC) entryValue(c cellKey, cellType types.Type) *RF {
 		}
 		return x.zero(t)
 	case *ssa.Parameter:
-		return x.fieldOf(fc.Val(b), cellType, c.field)
+		v := fc.Val(b)
+		if at := v.SingleAtom(); at != nil && at.Name == "ref" {
+			v = at.Args[0]
+		}
+		return x.fieldOf(v, cellType, c.field)
 	}
 	return x.S.Var("entry?", false)
 }
@@ -996,6 +1011,13 @@ func (fc *FC) call(c *ssa.Call) *RF {
 	cm := c.Common()
 	args := make([]*RF, len(cm.Args))
 	for i, a := range cm.Args {
+		if al, ok := a.(*ssa.Alloc); ok {
+			if _, isStruct := al.Type().Underlying().(*types.Pointer).Elem().Underlying().(*types.Struct); isStruct {
+				// address of a local struct: pass the struct's current value by reference
+				args[i] = s.MakeFn("ref", fc.structAt(al, c))
+				continue
+			}
+		}
 		args[i] = fc.Val(a)
 	}
 	if cm.IsInvoke() {
